@@ -547,12 +547,18 @@ class SymFP(Sym):
         return self._b(o, lambda a, b: z3.fpSub(RNE, a, b), True)
 
     def __mul__(self, o):
+        if isinstance(o, (int, float)) and not isinstance(o, bool) and o == 1:
+            return self                      # x * 1.0 is x exactly in IEEE-754 (bit-blasting a multiplier is costly)
         return self._b(o, lambda a, b: z3.fpMul(RNE, a, b))
 
     def __rmul__(self, o):
+        if isinstance(o, (int, float)) and not isinstance(o, bool) and o == 1:
+            return self
         return self._b(o, lambda a, b: z3.fpMul(RNE, a, b), True)
 
     def __truediv__(self, o):
+        if isinstance(o, (int, float)) and not isinstance(o, bool) and o == 1:
+            return self
         return self._b(o, lambda a, b: z3.fpDiv(RNE, a, b))
 
     def __rtruediv__(self, o):
@@ -635,10 +641,20 @@ def log_term(xe):
     return v
 
 
+LOG_UNDERFLOW = z3.Q(1, 2 ** 1080)
+LOG_OVERFLOW = z3.RealVal(2 ** 1025)
+
+
 def sym_log(x):
     if isinstance(x, SymFP):
         raise Unsupported("log in FP64 mode")
     if isinstance(x, (SymInt, SymReal)):
+        c = ctx()
+        if c.log_range_obligation:
+            # REAL mode has no overflow; where a harness asks for it, the argument of ln must be a
+            # value binary64 can hold (else the real code computes ln(0) = -inf or ln(inf) = inf)
+            xe = as_real(x)
+            c.prove(c.log_range_obligation, z3.And(xe >= LOG_UNDERFLOW, xe <= LOG_OVERFLOW))
         return SymReal(log_term(as_real(x)))
     return math.log(x)
 
@@ -869,6 +885,7 @@ class PathCtx:
         self.outputs = {}           # name -> term/py value (for witness validation)
         self.logs = []              # (argument term, value term) of ln applications
         self.norm_hints = []        # preferred extra constraints for witnesses / counterexamples
+        self.log_range_obligation = None   # name of the obligation guarding arguments of ln (finiteness configs)
 
     # ---- declaring inputs
     def real(self, name, lo=None, hi=None, tag='float'):
